@@ -56,6 +56,7 @@ func main() {
 	steps := flag.Int("steps", 120, "events per history")
 	seed := flag.Int64("seed", 1, "seed")
 	out := flag.String("out", "trace.ndjson", "trace file")
+	txs := flag.Bool("tx", true, "include user transactions (committed and aborted)")
 	flag.Parse()
 	if os.Getenv("VERIF_STDERR") == "" {
 		if dn, err := os.OpenFile("/dev/null", os.O_WRONLY, 0); err == nil {
@@ -191,6 +192,60 @@ func main() {
 				}
 				o := rep.Observe()
 				trace = append(trace, ev{"event": "local", "r": c, "call": cj, "view": toTags(o.View), "size": o.Size, "opid": []uint64{o.NextL, o.NextS}})
+			case x == 5 && *txs: // a user transaction of 1-3 calls, committed or aborted
+				ob := rep.Observe()
+				sz := ob.Size
+				live := map[string]bool{}
+				if m, isMap := ob.View.(map[string]interface{}); isMap {
+					for k := range m {
+						live[k] = true
+					}
+				}
+				var calls []spec.Call
+				var cjs []ev
+				for j := 1 + rng.Intn(3); j > 0; j-- {
+					switch *kind {
+					case "counter":
+						d := rng.Intn(7) - 3
+						calls, cjs = append(calls, spec.Call{Op: "inc", D: d}), append(cjs, ev{"op": "inc", "d": d})
+					case "map":
+						k := []string{"a", "b", "c"}[rng.Intn(3)]
+						if live[k] && rng.Intn(3) == 0 {
+							calls, cjs = append(calls, spec.Call{Op: "remove", K: k}), append(cjs, ev{"op": "remove", "k": k})
+							live[k] = false
+						} else {
+							rs, ts := newVals(1)
+							calls, cjs = append(calls, spec.Call{Op: "put", K: k, V: rs[0]}), append(cjs, ev{"op": "put", "k": k, "v": ts[0]})
+							live[k] = true
+						}
+					case "list":
+						if sz == 0 || rng.Intn(3) > 0 {
+							cnt := 1 + rng.Intn(2)
+							rs, ts := newVals(cnt)
+							pos := rng.Intn(sz + 1)
+							calls, cjs = append(calls, spec.Call{Op: "insert", Pos: pos, Vals: rs}), append(cjs, ev{"op": "insert", "pos": pos, "vals": ts})
+							sz += cnt
+						} else {
+							pos := rng.Intn(sz)
+							calls, cjs = append(calls, spec.Call{Op: "delete", Pos: pos, N: 1}), append(cjs, ev{"op": "delete", "pos": pos, "n": 1})
+							sz--
+						}
+					}
+				}
+				commit := rng.Intn(3) > 0
+				rets, _, pan := rep.Tx(calls, commit)
+				bad := pan != ""
+				for _, rr := range rets {
+					bad = bad || rr.Err || rr.Panic != ""
+				}
+				if bad {
+					fail("error", fmt.Sprintf("a valid call inside a transaction failed: %v %s", cjs, pan))
+					ok = false
+					break
+				}
+				o := rep.Observe()
+				trace = append(trace, ev{"event": "tx", "r": c, "calls": cjs, "commit": commit, "view": toTags(o.View), "size": o.Size,
+					"opid": []uint64{o.NextL, o.NextS}, "npend": len(o.Pending) - 1})
 			case x < 7: // push
 				if k := w.Push(c); k > 0 {
 					trace = append(trace, ev{"event": "push", "r": c, "n": k})
